@@ -33,15 +33,23 @@ ASSUMPTIONS = ["items are hashable with lawful __eq__/__hash__ (tokens mapped to
 TRUSTED = ["Model/C11_Model.v is hand-written; tied to boltons.setutils.IndexedSet by the correspondence run",
            "bisect_left (on a sorted list), sorted(), itertools.islice/chain, list and dict primitives are modelled by contract",
            "harness/c11.py serialiser; the two 61-bit polynomial digests (multiplier 1000003, truncated to 61 bits) stand for the full lists between snapshots",
-           "harness/translators/c11_consts.py (reads _COMPACTION_FACTOR and the 384 limit from the source)"]
+           "harness/translators/c11_consts.py (reads _COMPACTION_FACTOR and the 384 limit from the source)",
+           "harness/translators/{py2coq,c11_src}.py (Gen/C11_Src.v: _get_real_index and _get_apparent_index regenerated from "
+           "the source each run; C11_source_real_index / C11_source_apparent_index prove them equal to the model's loops)"]
 
 DG_MOD = 2305843009213693951
 BAD_TOK = 4999
 
 
 def translators(repo):
-    from translators import c11_consts
-    return {"C11_Gen": c11_consts.render(repo)}
+    import os
+    import sys
+    sys.path.insert(0, os.path.join(os.path.dirname(os.path.abspath(__file__)), "translators"))
+    import c11_consts
+    import c11_src
+    out = {"C11_Gen": c11_consts.render(repo)}
+    out.update(c11_src.generate(repo))       # Gen/C11_Src.v: _get_real_index / _get_apparent_index from the source
+    return out
 
 
 # ---------------------------------------------------------------------------
